@@ -8,7 +8,7 @@
 From Coq Require Import ZArith List Bool.
 From HV Require Import Prelude.Py Prelude.State Spec.DynTable Spec.SDecoder.
 From HV Require Import Model.Data Model.Decoder Model.Rel.
-From HV Require Import Proofs.Table Proofs.DecoderRefine Proofs.SpecDecoder.
+From HV Require Import Proofs.Table Proofs.DecoderRefine Proofs.SpecDecoder Proofs.DecoderMeaning.
 Import ListNotations.
 Open Scope Z_scope.
 
